@@ -1416,6 +1416,8 @@ class Evaluator:
             r = self._or2(a, b)
             if r is not None:
                 return r
+        if len(vals) == 2 and (show(negate(vals[0]), -20) == show(vals[1], -20)):
+            return Const(not is_and)          # `x or not x` / `x and not x`
         return Sym("op", ("and" if is_and else "or",) + tuple(vals))
 
     def _or2(self, a, b, depth=0):
@@ -1483,6 +1485,18 @@ class Evaluator:
         # object vs None
         if name in ("is", "is not") and isinstance(b, Const) and b.value is None and self._is_plain_value(a):
             return Const(name == "is not")
+        # `value is True` / `value is False` on a value of known kind: only a bool can be one of the two singletons
+        if name in ("is", "is not") and isinstance(b, Const) and isinstance(b.value, bool) and (
+                isinstance(a, Str) or (isinstance(a, Sym) and a.kind == "call" and self._is_plain_value(a))):
+            return Const(name == "is not")       # text (str(), .isoformat(), .replace() of a value) is never True / False
+        if name in ("is", "is not") and isinstance(b, Const) and isinstance(b.value, bool) and isinstance(a, Sym) and a.kind == "typed":
+            if "bool" not in a.args[1]:
+                return Const(name == "is not")
+            if a.args[1] == frozenset({"bool"}):
+                r = Sym("op", ("is", a, Const(True)))        # one atom for both singletons: `is False` is its negation
+                if b.value is False:
+                    r = negate(r)
+                return r if name == "is" else negate(r)
         if name in ("is", "is not") and isinstance(b, Const) and b.value is None and isinstance(a, (Obj, Str, ListV, EnumV, ClassRef, CtxV)):
             if isinstance(a, CtxV) and a.maybe_none:
                 r = Sym("ctx-present", ())
